@@ -37,7 +37,7 @@ CHECKS = {
               "on the real link::layer::Layer, each followed by a link-status probe; part A2: random FCB sequences; part B (when built): application fragments from foreign master/broadcast in each session state. "
               "distinct = (role, function class, FCV, destination class, source class, self-address, secondary state, payload) tuples"),
         runs=[dict(check="c07", scale=8, timeout_s=900)],
-        required=["mixed_source_fragment_ignored", "link_status_answered", "confirmed_delivered", "confirmed_duplicate_suppressed"],
+        required=["mixed_source_fragment_ignored", "empty_frame_after_rejected_frame_ignored", "link_status_answered", "confirmed_delivered", "confirmed_duplicate_suppressed"],
         thorough_scale=20.0,
         exhaustive_note="link table: all 256 control bytes x 7 dest x 7 src x roles x self-address x 3 secondary states x 2 payloads enumerated completely on every run",
         assumptions=HARNESS_TRUST,
@@ -218,7 +218,7 @@ CHECKS = {
               "A2 every response and unsolicited fragment the real outstation writes for generated databases (all types/variations, boundary values) and requests; A3 device attributes (all seven value types, private and default sets, values at the integer width boundaries, strings up to 255 octets) defined in the real outstation and read one by one, as a whole set, as a variation list and written by a scripted master: object bytes against a hand-written encoding, the value handed to the master's handler, write verdicts, read-after-write, series termination; A4 analog dead-bands written by the real master (three variations, 8/16-bit indices), applied by the real outstation (application callbacks) and read back by the real master; P grammar-generated fragments x both zero-length-string options; plus 6 truncations / extensions / bit flips / octet substitutions of every captured fragment"),
         runs=[dict(check="c09", timeout_s=900),
               dict(check="c09", flavor="miri", tier="thorough", scale=0.0004, extra=["--direct-only"], timeout_s=300)],
-        required=["A2_relative_event_times_as_written", "A1_file_requests_checked", "A1_fragments_agree", "A1_read_request_as_asked", "A2_fragments_agree", "A2_objects_agree", "A2_measurements_agree", "P_fragments_agree", "P_objects_agree", "P_objects_rejected", "A1_mutated_objects_rejected", "A2_mutated_objects_rejected", "A2_mutated_fragments_agree", "A3_attribute_read_ok", "A3_attribute_delivered_ok", "A3_attribute_set_read_ok", "A3_variation_list_ok", "A3_attribute_write_accepted_ok", "A3_attribute_write_rejected_ok", "A3_attribute_after_write_ok", "A3_read_ok_code3", "A4_dead_band_write_ok", "A4_dead_band_read_ok", "A3_default_set_attribute_named_ok"],
+        required=["A2_relative_event_times_as_written", "A2_truncated_control_echo_checked", "A1_file_requests_checked", "A1_fragments_agree", "A1_read_request_as_asked", "A2_fragments_agree", "A2_objects_agree", "A2_measurements_agree", "P_fragments_agree", "P_objects_agree", "P_objects_rejected", "A1_mutated_objects_rejected", "A2_mutated_objects_rejected", "A2_mutated_fragments_agree", "A3_attribute_read_ok", "A3_attribute_delivered_ok", "A3_attribute_set_read_ok", "A3_variation_list_ok", "A3_attribute_write_accepted_ok", "A3_attribute_write_rejected_ok", "A3_attribute_after_write_ok", "A3_read_ok_code3", "A4_dead_band_write_ok", "A4_dead_band_read_ok", "A3_default_set_attribute_named_ok"],
         thorough_scale=12.0,
         abnormal_exit_is_violation=True,
         assumptions=HARNESS_TRUST,
